@@ -72,11 +72,32 @@ func genHistory(t *rapid.T) []op {
 				ops = append(ops, op{Kind: "inhume-container", Cnr: rapid.IntRange(0, 2).Draw(t, "c")})
 			}
 		default:
-			s := specGen.Draw(t, "spec")
+			s := acyclic(specGen.Draw(t, "spec"))
 			ops = append(ops, op{Kind: "put", Spec: &s})
 		}
 	}
 	return ops
+}
+
+// acyclic normalises the relations of a drawn spec so that they can exist between real objects: an object ID is
+// the hash of its header, which contains the parent / first-part IDs, so relation cycles (A child of B and B child
+// of A) cannot be produced by any client; they make metabase.collectChildren recurse for ever. The object gets the
+// smallest index of {ID, Parent, First}, so relations always point to larger indexes. First == Parent (which a
+// client CAN produce and which also makes collectChildren recurse for ever: reported separately) is excluded too.
+func acyclic(s uni.Spec) uni.Spec {
+	if s.Parent < 0 {
+		return s
+	}
+	if s.First == s.Parent {
+		s.First = -1
+	}
+	if s.Parent < s.ID {
+		s.ID, s.Parent = s.Parent, s.ID
+	}
+	if s.First >= 0 && s.First < s.ID {
+		s.ID, s.First = s.First, s.ID
+	}
+	return s
 }
 
 // bulk describes many lock/tombstone objects with their own IDs (to cross the 1000-key migration batches).
